@@ -11,3 +11,6 @@ chk("C09", "runtime monitoring: print/parse round-trip oracle with an independen
 chk("C08", "runtime monitoring: relational oracle (equivalence, hash and print agreement) over related term tuples",
     "Pairs/triples of related constants and atoms (rebuilt copies, one-leaf mutations, cross-kind twins, permuted map entries incl. hash-equal keys) are checked for reflexivity, symmetry, transitivity, Equals=>same Hash and String, same String=>Equals, and agreement of Equals with an independent canonical encoding. Held on the tuples executed.",
     "Domain restricted to finite floats and lexer-valid names as the property states; canonical encoding is the structural ground truth.")
+chk("C19", "runtime monitoring: write/read round-trip oracle over fact sets, compressions and readers",
+    "Generated fact sets are written in simple-column format (plain/gzip/zstd, deterministic or not), reloaded eagerly into each store kind and through the lazy file-backed view queried with patterns derived from every stored fact; results are compared as canonical sets, deterministic outputs from two differently ordered sources byte for byte. Held on the fact sets executed.",
+    "Source stores are harness-owned slice stores (WriteTo only calls ListPredicates/GetFacts); hash-keyed ReadInto targets only see hash-distinct atoms.")
